@@ -1,7 +1,9 @@
 #!/bin/bash
-# usage: coqgoal.sh file.v LINE  -- compile up to LINE (exclusive) then print the goals
-f=$1; n=$2
-head -n $((n-1)) $f > /tmp/_goal.v
-echo "Show. Abort." >> /tmp/_goal.v
-cd /verif/coq && coqc -Q theories Smtp -Q gen SmtpGen -Q props SmtpProps /tmp/_goal.v 2>&1 | grep -v "^Warning\|deprecated" | head -${3:-60}
-rm -f /tmp/_goal.vo /tmp/_goal.glob /tmp/._goal.aux /tmp/_goal.vos /tmp/_goal.vok
+# usage: coqgoal.sh file.v LINE [N] -- compile up to LINE (exclusive) then print the goals
+V="${VERIF_ROOT:-$(cd "$(dirname "$0")/.." && pwd)}"
+f=$(realpath $1); n=$2
+t=$(mktemp -d)
+head -n $((n-1)) $f > $t/Goal_tmp.v
+echo "Show. Abort." >> $t/Goal_tmp.v
+cd $V/coq && coqc -Q theories Smtp -Q gen SmtpGen -Q props SmtpProps $t/Goal_tmp.v 2>&1 | grep -v "^Warning\|deprecated" | head -${3:-60}
+rm -rf $t
